@@ -351,6 +351,31 @@ def param_vars(text, cl, src):
     return text
 
 
+def unannotated(src, item, ed, spec, loops_done=(), closures_done=()):
+    """what the sidecar says nothing about although a proof depends on it: loops of the (current) text that got no
+    invariant, closures that are handed to a std combinator as they are (Verus knows nothing of what an
+    unannotated closure returns).  A FAILED proof of a function that has one means nothing - it is reported
+    undecided (a harmless `for` written in place of `collect()`, an `ok_or_else(|| ..)` in place of a `match`)."""
+    out = []
+    covered = [(e[0], e[1]) for e in ed.list if e[1] > e[0]]
+
+    def consumed(n):
+        a = n["range"][0]
+        return any(s0 <= a < e0 for (s0, e0) in covered)
+
+    done_l = {tuple(n["range"]) for n in loops_done}
+    for n in nodes_of(item, "loop"):
+        if tuple(n["range"]) in done_l or consumed(n):
+            continue
+        out.append(f"{n.get('loop_kind', 'a')} loop without an invariant")
+    done_c = {tuple(n["range"]) for n in closures_done}
+    for n in nodes_of(item, "closure"):
+        if tuple(n["range"]) in done_c or consumed(n):
+            continue
+        out.append("closure `" + re.sub(r"\s+", " ", src.text(*n["range"]))[:40] + "` without a contract")
+    return out
+
+
 def r9_visibility(src, item, ed, opts):
     v = item.get("vis")
     if v:
@@ -1078,19 +1103,6 @@ def r40_and_then(src, item, ed, opts):
     function); edits inside O, D and E still apply"""
     clos = {tuple(c["range"]): c for c in nodes_of(item, "closure")}
     for n in nodes_of(item, "methodcall"):
-        if n["method"] == "ok_or_else" and len(n["args"]) == 1:
-            # `O.ok_or_else(|| E)` -> `(match O { Some(v) => Ok(v), None => Err(E) })`: the definition of Option::ok_or_else
-            cn = clos.get(tuple(n["args"][0]["range"]))
-            if cn is None or cn["inputs"]:
-                continue
-            body = re.sub(r'"(?:[^"\\\\]|\\\\.)*"', '""', src.text(*cn["body"]))
-            if "?" in body or re.search(r"\breturn\b", body):
-                raise Unsupported("R40: `?`/`return` inside an ok_or_else closure")
-            ed.insert(n["range"][0], "(match ", "R40", prio=-(n["range"][1] - n["range"][0]))
-            ed.replace(n["receiver"][1], cn["body"][0], " { Some(vx_v) => Ok(vx_v), None => Err(", "R40")
-            ed.replace(cn["body"][1], n["range"][1], ") })", "R40")
-            ed.count("R40")
-            continue
         if n["method"] == "map" and len(n["args"]) == 1 and opts.get("option_map"):
             # (opt-in per function: `option_map = true` says every `.map(closure)` of it is Option::map)
             # `O.map(|P| E)` -> `(match O { Some(P) => Some(E), None => None })`: the definition of Option::map
@@ -1132,6 +1144,28 @@ def r40_and_then(src, item, ed, opts):
             ed.replace(dflt["range"][1], cn["body"][0], f") {{ (Some({pat}), _) => ", "R40")
             ed.replace(cn["body"][1], n["range"][1], ", (None, vx_d) => vx_d })", "R40")
         ed.count("R40")
+
+
+def r45_ok_or_else(src, item, ed, opts):
+    """(every unit) `O.ok_or_else(|| E)` -> `(match O { Some(v) => Ok(v), None => Err(E) })`: the definition of
+    Option::ok_or_else (a parameterless closure whose body has no `?` / `return`)"""
+    if any(sp.get("kind") == "methodcall" and sp.get("method") == "ok_or_else" for sp in opts.get("shims", [])):
+        return  # the sidecar models this function's ok_or_else sites itself
+    clos = {tuple(c["range"]): c for c in nodes_of(item, "closure")}
+    for n in nodes_of(item, "methodcall"):
+        if n["method"] == "ok_or_else" and len(n["args"]) == 1:
+            # `O.ok_or_else(|| E)` -> `(match O { Some(v) => Ok(v), None => Err(E) })`: the definition of Option::ok_or_else
+            cn = clos.get(tuple(n["args"][0]["range"]))
+            if cn is None or cn["inputs"]:
+                continue
+            body = re.sub(r'"(?:[^"\\\\]|\\\\.)*"', '""', src.text(*cn["body"]))
+            if "?" in body or re.search(r"\breturn\b", body):
+                raise Unsupported("R45: `?`/`return` inside an ok_or_else closure")
+            ed.insert(n["range"][0], "(match ", "R45", prio=-(n["range"][1] - n["range"][0]))
+            ed.replace(n["receiver"][1], cn["body"][0], " { Some(vx_v) => Ok(vx_v), None => Err(", "R45")
+            ed.replace(cn["body"][1], n["range"][1], ") })", "R45")
+            ed.count("R45")
+            continue
 
 
 def _norm_ws(t):
@@ -1294,6 +1328,7 @@ RULES = {
     "R41": r41_map_collect,
     "R43": r43_vec_literal,
     "R44": r44_guard_continue,
+    "R45": r45_ok_or_else,
     "R24": r24_call_shim,
 }
 
@@ -1558,6 +1593,8 @@ def extract_fn(src, spec, unit_rules):
         ed.insert(blk[1] - 1, "\n" + spec["body_end"].strip() + "\n", "ghost")
 
     loops = nodes_of(item, "loop")
+    vx_loops_done = []
+    vx_clos_done = []
     for ls in spec.get("loop", []):
         k = ls.get("n")
         if "over" in ls:
@@ -1568,6 +1605,7 @@ def extract_fn(src, spec, unit_rules):
             if k >= len(loops):
                 raise LostAnchor(f"loop #{k} of {spec['path']} (function has {len(loops)} loops)")
             n = loops[k]
+        vx_loops_done.append(n)
         ls = loop_vars(ls, n, src)
         if ls.get("kind") and ls["kind"] != n["loop_kind"]:
             raise LostAnchor(f"loop #{k} of {spec['path']} is a `{n['loop_kind']}`, sidecar expects `{ls['kind']}`")
@@ -1592,6 +1630,7 @@ def extract_fn(src, spec, unit_rules):
         if k >= len(closures):
             raise LostAnchor(f"closure #{k} of {spec['path']}")
         n = closures[k]
+        vx_clos_done.append(n)
         if not n["body_is_block"]:
             raise Unsupported(f"closure #{k} of {spec['path']} has an expression body")
         if cs.get("ret"):
@@ -1626,6 +1665,7 @@ def extract_fn(src, spec, unit_rules):
         "raw": raw,
         "counts": ed.counts,
         "hash": hashlib.sha256(norm_tokens(raw).encode()).hexdigest()[:16],
+        "unannotated": [] if decl_only else unannotated(src, item, ed, spec, vx_loops_done, vx_clos_done),
     }
 
 
@@ -1690,6 +1730,7 @@ def extract_arm(src, spec, unit_rules):
         r24_call_shim(src, item, ed, spec)
     apply_at_anchors(src, item, ed, spec)
     loops = nodes_of(item, "loop")
+    vx_loops_done = []
     for ls in spec.get("loop", []):
         k = ls.get("n")
         if "over" in ls:
@@ -1700,6 +1741,7 @@ def extract_arm(src, spec, unit_rules):
             if k >= len(loops):
                 raise LostAnchor(f"loop #{k} of arm {spec['arm']}")
             n = loops[k]
+        vx_loops_done.append(n)
         ls = loop_vars(ls, n, src)
         if ls.get("before"):
             ed.insert(n["range"][0], ls["before"].strip() + "\n", "ghost")
@@ -1743,6 +1785,7 @@ def extract_arm(src, spec, unit_rules):
         "raw": raw,
         "counts": ed.counts,
         "hash": hashlib.sha256(norm_tokens(raw).encode()).hexdigest()[:16],
+        "unannotated": unannotated(src, item, ed, spec, vx_loops_done, []),
     }
 
 
@@ -1877,6 +1920,7 @@ def extract_closure(src, spec, unit_rules):
     if "shims" in spec and "R24" not in rules:
         r24_call_shim(src, item, ed, spec)
     loops = nodes_of(item, "loop")
+    vx_loops_done = []
     for ls in spec.get("loop", []):
         kk = ls.get("n")
         if "over" in ls:
@@ -1887,6 +1931,7 @@ def extract_closure(src, spec, unit_rules):
             if kk >= len(loops):
                 raise LostAnchor(f"loop #{kk} of closure #{k} of {spec['path']}")
             n = loops[kk]
+        vx_loops_done.append(n)
         ls = loop_vars(ls, n, src)
         if ls.get("before"):
             ed.insert(n["range"][0], ls["before"].strip() + "\n", "ghost")
@@ -1934,7 +1979,7 @@ def extract_closure(src, spec, unit_rules):
         + inner + "\n}\n"
     )
     raw = src.text(body[0], body[1])
-    return {"item": {"name": spec["name"], "range": list(body)}, "text": text, "raw": raw, "counts": ed.counts, "hash": hashlib.sha256(norm_tokens(raw).encode()).hexdigest()[:16]}
+    return {"item": {"name": spec["name"], "range": list(body)}, "text": text, "raw": raw, "counts": ed.counts, "hash": hashlib.sha256(norm_tokens(raw).encode()).hexdigest()[:16], "unannotated": unannotated(src, item, ed, spec, vx_loops_done, [])}
 
 
 def lift_self(text, spec):
